@@ -6,7 +6,7 @@ tie   : three overlay harnesses call the real code (common/bitlist, pkg/trie whi
         domain_matcher.AhocorasickSlimtrie) and the Lean driver c11drv evaluates the same lines.
 """
 import json, os, resource, subprocess, time
-from verifkit import read_lines, LEAN
+from verifkit import read_lines, LEAN, REPO, CACHE, go_env, sh
 
 REQUIRED = [
     "DaeVerif.C11.Props.full_matches_identical_only",
@@ -27,7 +27,41 @@ REQUIRED = [
     "DaeVerif.C11.Props.matcher_trie_path_eq_contract",
     "DaeVerif.C11.Props.normName_case_insensitive",
     "DaeVerif.C11.Props.normName_trailing_dot",
+    "DaeVerif.C11.Props.keyword_lookup_eq_meaning",
+    "DaeVerif.C11.Props.keyword_start_anchor",
+    "DaeVerif.C11.Props.keyword_end_anchor",
+    "DaeVerif.C11.Props.keyword_both_anchors",
+    "DaeVerif.C11.Props.keyword_plain",
+    "DaeVerif.C11.Props.domain_matcher_bitmap_correct",
+    "DaeVerif.C11.Props.negative_index_is_out_of_range",
 ]
+
+# generator scale the evidence may claim (the check refuses to finish below these)
+MIN_SCALE = {"quick": {"trie.keys.max": 20000, "dm.set.size.max": 10000, "dm.name.len.max": 1000},
+             "thorough": {"trie.keys.max": 200000, "dm.set.size.max": 100000, "dm.name.len.max": 1000}}
+PLAIN = set(b"abcdefghijklmnopqrstuvwxyzABCDEFGHIJKLMNOPQRSTUVWXYZ0123456789-_.")
+
+
+def canon(line):
+    """What the property speaks about: answers, not layouts, not error wording.
+    ` | …` = diagnostics (white-box layout dumps); `err:<class>` = some build error."""
+    line = line.split(" | ")[0]
+    if line.startswith("err:") or line.startswith("builderr:"):
+        return "err"
+    return line
+
+
+def plain_query(op):
+    w = op.split()
+    if len(w) < 2 or w[0] != "q":
+        return True
+    if w[1] == "-":
+        return True
+    try:
+        return all(b in PLAIN for b in bytes.fromhex(w[1]))
+    except ValueError:
+        return False
+
 
 STREAMS = [
     # (package dir, harness file, binary name, test name, stream label)
@@ -58,12 +92,12 @@ def run_driver(ctx, ops, out):
 
 def run(ctx):
     ctx.trusted += [
-        "Go regexp is an oracle: the harness reports which regex patterns match lower(trimDot(name)); the model only combines the answers",
-        "ahocorasick-domain library: Contains(in) = some non-empty dictionary word occurs in `in` after bytes outside its alphabet are read as 'a' (modelled as acContains, tied on every keyword query, not proved)",
+        "Go regexp is an oracle: the harness reports which regex patterns match lower(trimDot(name)); the model only combines the answers (the string the regex is applied to and the regex flavour are tied by the harness: Perl-only syntax, sentinel- and trailing-dot-sensitive regexes in the pool)",
+        "ahocorasick-domain library: Contains(in) = some non-empty dictionary word occurs in `in` after bytes outside its alphabet are read as 'a' (modelled as acContains; tied on every keyword query and by a direct stream on NewMatcher/Contains with up to 10^4 overlapping keywords; the automaton itself is not proved)",
         "strings.ToLower / TrimSuffix on ASCII names (modelled bytewise); non-ASCII names are outside the property's quantifier",
-        "sort.Strings + common.Deduplicate = the sorted list of distinct keys (modelled as mergeSort + adjacent dedup; proved sorted/duplicate-free in Lean)",
+        "sort.Strings + common.Deduplicate = the sorted list of distinct keys (modelled as mergeSort + adjacent dedup; proved sorted/duplicate-free in Lean; tied up to 2*10^5 keys with every key probed)",
         "anybuffer.Buffer is modelled as a growable zero-initialised uint16 array (its Extend path is exercised by the bitlist tie)",
-        "sync/goroutine fan-out inside Build is not modelled (each set is built independently; only the collected result is compared)",
+        "goroutine fan-out inside Build and concurrent MatchDomainBitmap calls are not modelled (the model is a pure function); a -race stream compares 8-goroutine replays with the sequential answers and checks that no set is lost by Build",
     ]
     ctx.prove(["DaeVerif.C11.Props"], ["DaeVerif.C11.Props"], ["DaeVerif/C11/*.lean"], extra_targets=["c11drv"])
     ctx.required_theorems(REQUIRED)
@@ -72,13 +106,38 @@ def run(ctx):
     distinct = set()
     dist = {}
     samples = []
-    for pkg, hf, binname, test, label in STREAMS:
+    diagnostics = {"layout_differs": 0, "error_class_differs": 0, "outside_alphabet_differs": 0}
+    streams = list(STREAMS) + [("component/routing/domain_matcher", "component/routing/domain_matcher/c11_test.go",
+                                "c11cc", "TestVerifC11Concurrent", "c11cc")]
+    for pkg, hf, binname, test, label in streams:
         binp = ctx.go_test_build(pkg, [hf], binname, tags="")
         if not binp:
             return 2
+        raced = False
+        if label == "c11cc":
+            # same overlay, built with the race detector (falls back to the plain binary if -race cannot link here)
+            ov = os.path.join(ctx.out, f"overlay_{binname}.json")
+            rbin = os.path.join(CACHE, "bin", binname + ".race.test")
+            if os.path.exists(rbin):
+                os.unlink(rbin)
+            cmd = ["go", "test", "-c", "-race", "-vet=off", "-overlay", ov, "-o", rbin, "./" + pkg]
+            rc0, out0, dt0 = sh(cmd, cwd=REPO, env=go_env(), timeout=3000)
+            ctx.log.write(f"$ {' '.join(cmd)} [{dt0:.1f}s rc={rc0}]\n{out0[-2000:]}\n")
+            if rc0 == 0 and os.path.exists(rbin):
+                binp, raced = rbin, True
+            else:
+                ctx.say("NOTE: -race build unavailable here, concurrency stream runs without the race detector")
         rc, out = ctx.run_harness(binp, test)
         ops, impl, model = (os.path.join(ctx.out, label + "." + e) for e in ("ops", "impl", "model"))
-        if rc != 0 and ("panic:" in out or "fatal error:" in out) and os.path.exists(ops):
+        if "DATA RACE" in out:
+            blk = out[out.index("DATA RACE") - 20:][:3500]
+            where = [l.strip() for l in blk.split("\n") if "/dae/" in l or "wt-" in l or "seedwt" in l][:8]
+            ctx.report(f"{label}: data race in the matcher under concurrent use (race detector): {'; '.join(where[:2])[:240]}",
+                       {"stream": label, "race_report": blk, "frames": where,
+                        "replay": "VERIF_SEED=%d ./check C11 %s" % (ctx.seed, ctx.tier)})
+            rc = 0 if os.path.exists(ops) else rc
+        oom = any(x in out for x in ("out of memory", "cannot allocate memory", "signal: killed"))
+        if rc != 0 and not oom and ("panic:" in out or "fatal error:" in out) and os.path.exists(ops):
             # the real code panicked where the harness cannot recover (a goroutine started by Build):
             # that is a failure of the property, not of the infrastructure.  The session that was being
             # built is the tail of the ops file (flushed before every Build).
@@ -97,20 +156,33 @@ def run(ctx):
             return 2
         if not run_driver(ctx, ops, model):
             ctx.proof_failures.append(f"model driver c11drv failed on stream {label}")
-        mism = ctx.diff_streams(ops, impl, model, label)
+        mism_all = ctx.diff_streams(ops, impl, model, label, canon=canon)
         opl, iml, mol = read_lines(ops), read_lines(impl), read_lines(model)
         total += len(opl)
-        # model-internal disagreement (bit-exact trie vs hasPrefixSpec vs documented meaning) is a
-        # violation even when the implementation agrees with the bit-exact path
-        for i, (o, mo) in enumerate(zip(opl, mol)):
-            if "!spec" in mo or " spec=" in mo or " doc=" in mo:
+        mism = []
+        for m in mism_all:
+            # names outside the property's alphabet: the property is silent, a difference is a note
+            if label == "c11dm" and m[0] > 0 and not plain_query(m[1]) and " idx=" not in m[3] and " spec=" not in m[3]:
+                diagnostics["outside_alphabet_differs"] += 1
+                continue
+            mism.append(m)
+        for i, (o, im, mo) in enumerate(zip(opl, iml, mol)):
+            if canon(im) == canon(mo) and im != mo:
+                if im.startswith("err"):
+                    diagnostics["error_class_differs"] += 1
+                elif "unavailable" not in im:
+                    diagnostics["layout_differs"] += 1
+            # model-internal disagreement (packed trie vs trie contract vs documented meaning vs word
+            # encoding) is a violation even when the implementation agrees with the packed path
+            if "!spec" in mo or " spec=" in mo or " doc=" in mo or " idx=" in mo:
                 if not any(m[0] == i + 1 for m in mism):
-                    mism.append((i + 1, o, iml[i] if i < len(iml) else "", mo))
-            if o.startswith(("q ", "trie ", "bl ")):
+                    mism.append((i + 1, o, im, mo))
+            if o.startswith(("q ", "trie ", "bl ", "ac ", "cc ", "trieall", "qall")):
                 distinct.add(o if len(o) < 300 else hash(o))
+        ctx.cov["streams"][label]["mismatches"] = len(mism)
         for ln, op, im, mo in mism[:6]:
             sess = ""
-            if label == "c11dm" and ln > 0:
+            if label == "c11dm" and ln > 0 and any(l.startswith("new ") for l in opl[:ln]):
                 # replay context: the session lines since the last `new`
                 start = max(i for i in range(ln) if opl[i].startswith("new "))
                 ctxl = [l for l in opl[start:ln - 1] if not l.startswith("q ")]
@@ -122,14 +194,27 @@ def run(ctx):
         if os.path.exists(sp):
             st = json.load(open(sp))
             dist.update(st["counters"])
-            samples += [s if len(s) < 300 else s[:300] + "…" for s in st["samples"][:4]]
+            samples += [s if len(s) < 300 else s[:300] + "…" for s in (st.get("samples") or [])[:3]]
+        if label == "c11cc":
+            dist["cc.race_detector"] = 1 if raced else 0
+    for k, v in diagnostics.items():
+        if v:
+            ctx.say(f"NOTE (diagnostic, not a violation): {k} on {v} line(s)")
+    ctx.cov["diagnostics"] = diagnostics
     ctx.samples = samples
     ctx.cov["input_distribution"] = dist
+    # the scale the notes claim must really have been generated
+    for k, need in MIN_SCALE[ctx.tier if ctx.tier in MIN_SCALE else "quick"].items():
+        if dist.get(k, 0) < need:
+            ctx.say(f"HARNESS-FAILED generator scale: {k}={dist.get(k, 0)} < {need}")
+            return 2
     ctx.assumptions = [
-        "queried names are ASCII; names inside the property's alphabet (letters, digits, '-', '_', '.') are additionally compared with the documented meaning (docMatches), other names only with the model of the code",
-        "pattern-set sizes: quick up to ~2 000 patterns per set, thorough up to ~50 000 (geosite scale); bit indices spread over 0..1023",
+        "queried names are ASCII; names inside the property's alphabet (letters, digits, '-', '_', '.') are compared with the packed-trie model AND the documented meaning (docMatches); for other names a difference is only a diagnostic note",
+        "largest generated sizes (measured, see input_distribution): trie.keys.max keys in one trie, dm.set.size.max patterns in one AddSet call, dm.name.len.max bytes / dm.name.labels.max labels in a queried name, ac.keywords.max keywords in one automaton; bit indices spread over -3..1026 with tables of 0..1024 bits",
+        "white-box layout dumps (bit-list buffers, trie arrays) and error classes are diagnostics: only answers are compared",
     ]
     return ctx.finish(
-        rule="one evaluation = one op line: a bit-list script (`bl`), a NewTrie+HasPrefix batch with white-box dump (`trie`), or one "
-             "AhocorasickSlimtrie session line (new/add/build/q); distinct_nontrivial counts distinct bl/trie/q lines",
+        rule="one evaluation = one op line: a bit-list script with full read-back (`bl`), a NewTrie+HasPrefix batch (`trie`, `trieall` probes every key), "
+             "one AhocorasickSlimtrie session line (new/add/build/q/qall; q compares the raw []uint32 words), one Aho-Corasick library case (`ac`), "
+             "or one concurrent replay of a session under -race (`cc`); distinct_nontrivial counts distinct bl/trie/q/ac/cc lines",
         evaluations=total, distinct=len(distinct))
